@@ -150,11 +150,17 @@ def waldCoef (isSpline : Bool) (k : Nat) (c : Nat → α) : Nat → α := if isS
 /-- `score = coef.T.dot(inv_cov).dot(coef)`; `P = pinv(cov_block)` is a library parameter -/
 def waldStat (k : Nat) (P : Nat → Nat → α) (c : Nat → α) : α := quadForm k P c
 
+/-- the arguments `_compute_p_value` hands to the reference cdf: `(score, ·)` for `chi2.cdf(score, rank)` when the
+scale is known, `(score / rank, n - edof)` for `f.cdf(score / rank, rank, n - edof)` otherwise -/
+def cdfArgs (known : Bool) (score : α) (rank n : Nat) (edof : α) : α × α :=
+  if known then (score, 0) else (score / natTo rank, natTo n - edof)
+
 /-- `_compute_p_value`: chi-squared reference for a known scale, `F(rank, n - edof)` of `score / rank` otherwise;
 `chi2cdf x df` and `fcdf x d1 d2` are SciPy's (trusted parameters) -/
 def pValue (chi2cdf : α → Nat → α) (fcdf : α → Nat → α → α) (known : Bool) (score : α) (rank n : Nat)
     (edof : α) : α :=
-  if known then 1 - chi2cdf score rank else 1 - fcdf (score / natTo rank) rank (natTo n - edof)
+  let a := cdfArgs known score rank n edof
+  if known then 1 - chi2cdf a.1 rank else 1 - fcdf a.1 rank a.2
 
 /-! ### the scalar part of `statistics_` as one function of `(y, mu, weights, edof, ℓ, ℓ₀)` -/
 
